@@ -4,9 +4,11 @@ LA == {0, 7, 9, 10, 16, 104, 1000000, -7}
 LB == {1, 2, 3, 9600}
 RC == {0, 3, 7, 10, 16, 104, 105}
 RD == {1, 2}
+Words == {"z80", "z81", "release"}
+ScText == { T(lw, op, rw, q) : lw \in Words, op \in {"==", "!="}, rw \in Words, q \in BOOLEAN }
 ScQuick == { C(a, b, op, c, d, q, FALSE) : a \in LA, b \in LB, op \in Ops, c \in RC, d \in RD, q \in BOOLEAN }
-           \cup { C(a, b, "!=", 0, 1, FALSE, TRUE) : a \in LA, b \in LB }
+           \cup { C(a, b, "!=", 0, 1, FALSE, TRUE) : a \in LA, b \in LB } \cup ScText
 ScThorough == { C(a, b, op, c, d, q, FALSE) : a \in (LA \cup {1, 2, 3, 255, 256, -1, -104}), b \in (LB \cup {7, 10}), op \in Ops,
                                              c \in (RC \cup {1, 2, 9, 255, 256}), d \in (RD \cup {3}), q \in BOOLEAN }
-           \cup { C(a, b, "!=", 0, 1, FALSE, TRUE) : a \in (LA \cup {1, 2, 3, -1}), b \in (LB \cup {7, 10}) }
+           \cup { C(a, b, "!=", 0, 1, FALSE, TRUE) : a \in (LA \cup {1, 2, 3, -1}), b \in (LB \cup {7, 10}) } \cup ScText
 =============================================================================
